@@ -69,3 +69,19 @@ def prepare(tier):
     lw = vlib.extract('stack', 'libzwerg/stack.cc', CFG, ROOTS, OUT)
     return {'unit': 'libzwerg/stack.hh (via stack.cc)', 'functions': lw.report['functions'], 'externals': lw.report['externals'],
             'dropped': lw.report.get('throws', [])}
+
+
+def replay(r):
+    """The stale-profile symptom on the real library: after pushes and pops/drops at depth > 4 an overloaded
+    word must still dispatch on the true types of the top slots."""
+    cases = [('1 2 3 4 5 drop drop drop add', '3'), ('1 2 3 4 5 6 drop drop drop drop add', '3'),
+             ('"a" 2 3 4 5 drop drop drop drop length', '1'), ('[7] 2 3 4 5 drop drop drop drop length', '1'),
+             ('"x" "y" 3 4 5 6 drop drop drop drop add', 'xy'), ('1 2 3 4 5 6 7 8 drop drop drop drop drop drop add', '3'),
+             ('[1] [2] 3 4 5 "s" drop drop drop drop add length', '2'), ('1 2 3 4 "s" 6 drop length', '1')]
+    res = vlib.zw_queries([q for q, _ in cases], OUT)
+    bad = []
+    for (q, want), (cnt, txt) in zip(cases, res):
+        top = txt.strip().strip('<>').split('|')[-1] if cnt else None
+        if cnt != 1 or top != want:
+            bad.append('`%s` yields %s, expected %s' % (q, txt.strip() if cnt else 'nothing', want))
+    return {'reproduced': bool(bad), 'violations_on_real_library': bad[:6], 'queries': len(cases)}
